@@ -278,6 +278,8 @@ class Engine:
         undecided; a contract loop that no longer exists in the source is dropped (its absence shows in the post-conditions)."""
         want = self.fc.get('loops', {})
         self.loop_contract = {}          # source ordinal -> (contract ordinal, loop contract)
+        if self.fc.get('expressions_only'):          # the engine is only used to evaluate sub-expressions of the function
+            self.dropped_loops = []; return
         ks = sorted(want); pos = 0
         for src_k, node in enumerate(self.loop_nodes):
             fp = loop_fingerprint(node)
@@ -464,7 +466,8 @@ class Engine:
         if v.s == BOOL: return v.e
         if v.s.is_ref: return v.e != v.s.null
         if v.s == NONE: return BoolVal(False)
-        if v.s == INT: return v.e != 0
+        if v.s == INT or v.s == REAL: return v.e != 0
+        if v.s.is_opt and v.s.base in (INT, REAL): return And(v.s.dt.is_some(v.e), v.s.dt.val(v.e) != 0)          # None and 0 / 0.0 are falsy
         if v.s == STR: return Length(v.e) > 0
         if v.s.is_opt and v.s.base == STR: return And(v.s.dt.is_some(v.e), Length(v.s.dt.val(v.e)) > 0)
         if v.s.is_opt and v.s.base == TIME: return v.s.dt.is_some(v.e)            # datetime objects are always truthy
@@ -910,6 +913,7 @@ class Engine:
         for s, g in guard_fn(h):
             if isinstance(g, Raise): out.append((s, g)); continue
             out.append((s.fork(Not(g)), FALL))                      # exit path
+            if is_false(g): continue                                # the body is never entered
             b = s.fork(g)
             d0 = self.spec(lc['decreases'], b, entry=entry) if 'decreases' in lc else None
             for b2 in pre_body_fn(b):
